@@ -2,7 +2,8 @@
 # Run once after a fresh restore (offline): builds the Lean project of C14 (model, specification, lemmas, property
 # theorems, the model driver `c14-model`); pays the cold Mathlib import once and leaves .lake populated.
 # Nothing of /repo is compiled here: every ./check C14 rebuilds the C artefacts in a scratch directory and regenerates
-# XrlCrystals/Gen/Builtin.lean (the shipped collection's names) from the working tree.
+# XrlCrystals/Gen/Builtin.lean (the shipped collection's names) and XrlCrystals/Gen/Facts.lean (the structure of the container code,
+# tools/c14_facts.py; needed by XrlCrystals.Props.C14c, which is therefore built by the check only) from the working tree.
 set -e
 cd "$(dirname "$0")"
-lake build XrlCrystals XrlCrystals.Props.C14 c14-model
+lake build XrlCrystals XrlCrystals.Props.C14 XrlCrystals.Props.C14b c14-model
